@@ -206,6 +206,11 @@ def runQuery (s : Cache.State) (q : Query) : Cache.State × Option Res :=
   let s' := runThread { s with its := s.its ++ [{ q := q }] } t (threadFuel s.sh)
   (s', match s'.its[t]? with | some it => it.res | none => none)
 
+/-- a history of query methods on one cached object, each executed to its end -/
+def runQueries (s : Cache.State) : List Query → List (Option Res)
+  | [] => []
+  | q :: qs => (runQuery s q).2 :: runQueries (runQuery s q).1 qs
+
 /-- a query on an uncached set: `iter(self)` is `self._iter()`; `_len` is published when a generator runs to its end -/
 def runUncached (sh : Cache.Shared) (q : Query) : Cache.Shared × Option Res :=
   match q with
